@@ -286,6 +286,25 @@ def getDependentProductsExact (dbE db : Db) (fuel : Nat) (top : Prod) (topologic
   | none => .outOfFuel
   | some (out, _) => finishListing db fuel top topological checkCycles out
 
+/-- The default (implicit) product switched on (`hooks.config.Eups.defaultProduct`, stock name `implicitProducts`):
+`Table._read` appends `setupOptional(<default product>)` to every table it reads — the default product's own table
+included — unless `addDefaultProduct` is `False`, and `Table.dependencies` passes `False` down once it is on the default
+product's own table: the products opened *below* the default product get no implicit line.  Modelled as a database
+transformation, exact on the class the harness generates (the products below the default product are reached through it
+only, so they are always opened without the line): every declaration gets the line at the end of its table except the
+products listed from the default product.  (The second pass replaces the default product's edges by its whole closure
+and drops `k → default` for `k` in that closure — the same layers on this class.) -/
+def Db.withImplicit (db : Db) (dflt : Str) : Db :=
+  match db.find dflt none with
+  | none => db                       -- not declared (no current version): the optional line resolves nowhere … not generated
+  | some ip =>
+    let below : List Str := match listing db db.fuel [] ip with
+      | some (out, _) => out.map (·.prod.name)
+      | none => []
+    let line : Dep := { unsetup := false, optional := true, name := dflt, ver := none, noRec := false }
+    { db with decls := db.decls.map fun d =>
+        if below.contains d.name && d.name != dflt then d else { d with deps := d.deps ++ [line] } }
+
 /-- `setup=True` ("get the version that's actually setup"): every listed product is replaced by the version of it
 that is set up (`findSetupProduct`: the declared version the environment names), and dropped when none is
 (`shouldRaise=False`: a message for a required one) -/
